@@ -196,6 +196,7 @@ class Fn:
         # debug names
         self.names = {}
         self.upvar_names = {}
+        self.upvar_tys = {}
         for d in j['debug']:
             v = d['v']
             if 'l' not in v:
@@ -206,6 +207,7 @@ class Fn:
                 fi = [p for p in v['p'] if p['k'] == 'field']
                 if fi:
                     self.upvar_names.setdefault(fi[0]['i'], d['name'])
+                    self.upvar_tys.setdefault(fi[0]['i'], v.get('ty', ''))
         # definitions of whole locals
         self.defs = collections.defaultdict(list)
         for bi, b in enumerate(self.blocks):
@@ -407,6 +409,53 @@ class Fn:
             return rec
         rec.update(kind='value', a=d, values=sorted(labels))
         return rec
+
+    # -- disjunctive path contexts --------------------------------------------------------------
+    def contexts(self, bi, want, cap=256):
+        """path contexts of block bi restricted to the switches selected by `want`:
+        want(cond record) -> (key, value) or None.  Returns a list of dicts {key: value}, one per
+        distinct combination over all acyclic paths from the entry to bi (infeasible combinations —
+        the same key with two values — are dropped).  Handles or-patterns such as
+        `(One, true) | (Two, false)`, which merge paths and therefore have no conjunctive guard."""
+        memo = {}
+
+        def constraint(p, x):
+            t = self.blocks[p]['term']
+            if t['t'] != 'switch':
+                return None
+            labels = [v for v, tb in t['targets'] if tb == x]
+            if t['otherwise'] == x:
+                labels.append('else')
+            if not labels:
+                return None
+            return want(self.cond_of(p, frozenset(labels)))
+
+        def go(x, depth=0):
+            if x in memo:
+                return memo[x]
+            memo[x] = set()   # cycle guard
+            if x == 0:
+                memo[x] = {frozenset()}
+                return memo[x]
+            out = set()
+            for p in self.preds[x]:
+                if p not in self.reach or self.dominates(x, p):
+                    continue   # back edge
+                kv = constraint(p, x)
+                for c in go(p, depth + 1):
+                    if kv is None:
+                        out.add(c)
+                    else:
+                        d = dict(c)
+                        if kv[0] in d and d[kv[0]] != kv[1]:
+                            continue
+                        d[kv[0]] = kv[1]
+                        out.add(frozenset(d.items()))
+                    if len(out) > cap:
+                        break
+            memo[x] = out
+            return out
+        return [dict(c) for c in sorted(go(bi), key=lambda c: sorted(map(str, c)))]
 
     # -- expressions -------------------------------------------------------------------------
     def local_name(self, l):
@@ -734,7 +783,7 @@ class Crate:
         out = []
         x = target
         while x is not None:
-            out.append(self.graph['nodes'][x].split('|')[0])
+            out.append(self.graph['nodes'][x].split('|')[0].split('@', 1)[-1])
             p = parent.get(x)
             x = p[0] if p else None
         return list(reversed(out))
